@@ -3,7 +3,7 @@ import json, re
 from .. import core
 from . import stackcommon as sc
 
-EMITS = set("S V Q G A P PM R X E B ST CB TXT RACE VR NS".split())
+EMITS = set("S V Q G A P PM R X E B ST CB TXT RACE VR NS STORM".split())
 
 ADV_SETUP = ["wrongcode", "wrongproof", "noproof", "a0", "aN", "a2N", "aempty", "m5first", "start", "m3wrong", "m5zerokey",
              "m5randkey", "badstep", "badmethod", "garbage", "aNforged", "a0forged", "aemptyforged", "wrongcodezero", "m5zeroempty", "m5emptyhkdf"]
@@ -747,6 +747,11 @@ def gen_c10(rng, tier):
                 ops += ["P:c1:3.12:%s:-" % sc.num(b)]
             ops += ["W", "E:c0", "E:c1"]
         mk(cases, "atbound", ops)
+    # the application changes a value thousands of times while the subscriber keeps sending requests (an event may be due at
+    # any moment of the server's request handling)
+    for i in range(2 if tier == "quick" else 10):
+        mk(cases, "storm", ["N:p", "S:p:c0:ok", "N:c0", "V:c0:c0:ok", "P:c0:4.14:-:1", "STORM:c0:%d" % (2500 if tier == "quick" else 8000)])
+        cases[-1]["noretry"] = True
     # directed: texts that look like parts of the HTTP / EVENT framing, as values of an observable string
     for t in texts[1:6]:
         ops = ["N:p", "S:p:c0:ok", "N:c0", "V:c0:c0:ok", "N:c1", "V:c1:c0:ok", "P:c0:4.16:-:1", "P:c1:4.16:-:1",
@@ -799,6 +804,10 @@ def oracle_c10(c, obs):
         tok = None
         if p[0] in EMITS:
             _, tok = next(it)
+        if p[0] == "STORM":
+            if tok != "STORM=ok":
+                return "the application changed a value thousands of times while the subscriber kept sending requests: " + tok[6:].replace("-", " ")
+            continue
         if p[0] == "V" and p[3] == "ok":
             alive.add(p[1])
             subs[p[1]] = set()
